@@ -184,6 +184,13 @@ func (sms *sqlMetadataStore) AppendObject(ctx context.Context, tx *sql.Tx, bucke
 		return nil, err
 	}
 
+	// Only an existing null version is extended in place. A delete marker or a
+	// version created while versioning was enabled must stay as it is; the
+	// append then writes a new null version like any other suspended-state write.
+	if oldObjectEntity != nil && (oldObjectEntity.IsDeleteMarker || (oldObjectEntity.VersionID != nil && *oldObjectEntity.VersionID != "null")) {
+		return sms.PutObject(ctx, tx, bucketName, obj, nil)
+	}
+
 	if oldObjectEntity != nil {
 		existingParts, err := sms.partRepository.FindPartsByObjectIdOrderBySequenceNumberAsc(ctx, tx, *oldObjectEntity.Id)
 		if err != nil {
